@@ -50,6 +50,9 @@ func (m *Manager) Start() error {
 	m.log.Info("successfully ensured WalletDir exists", "wallet-dir-path", m.config.WalletDir)
 
 	m.encrypted = make(map[string]*KeyFile)
+	if m.decrypted == nil {
+		m.decrypted = make(map[string]*KeyStore)
+	}
 	keyFiles, err := m.ListEntropyFilesInStandardDir()
 	if err != nil {
 		m.log.Error("wallet start err", "err", err)
